@@ -2,7 +2,10 @@
 import copy
 import shutil
 
-from sim import gen, harness, history, ref_format, store, world
+import os
+
+from sim import fsseam, gen, harness, history, ref_format, store, world
+from sim.install import CTX
 from sim.core import substream
 
 PROP = 'C03'
@@ -23,7 +26,7 @@ COMPONENTS = {
 }
 ASSUMPTIONS = ['process-kill crash model (completed backend mutations persist)', 'SimStore objects are atomic; torn local files are covered by the Local FS-seam profile of C12/C13',
                'enumeration is complete per sampled victim run, sampled over runs']
-PROBES = ['victim_snapshot', 'victim_delete', 'victim_clean', 'crash', 'crash_inflight_commit', 'fail_before', 'fail_after', 'orphans_collected', 'victim_snapshot_visible_after_lost_ack']
+PROBES = ['local_backend', 'torn_write', 'fs_errno', 'victim_snapshot', 'victim_delete', 'victim_clean', 'crash', 'crash_inflight_commit', 'fail_before', 'fail_after', 'orphans_collected', 'victim_snapshot_visible_after_lost_ack']
 TIERS = {'quick': {'budget_s': 55, 'batch': 1}, 'thorough': {'budget_s': 900, 'batch': 4}}
 MAX_POINTS = 48
 
@@ -47,10 +50,76 @@ def gen_case(seed, tier):
     pre['victim'] = victim
     pre['follow'] = {'files': history.gen_fileset(rng, paths, len(pre['contents']), fs), 'mt': 1_800_000_000}
     pre['sample_seed'] = rng.randrange(1 << 30)
+    pre['backend'] = rng.choice(['sim', 'sim', 'local'])
+    if pre['backend'] == 'local':
+        pre['flavour'] = 'sync'
     return pre
 
 
-Fork = history.Fork
+class LocalUniverse:
+    """The repository lives in a real directory behind the real Local adapter; every syscall of the
+    adapter goes through the FS seam (crash / torn write / errno injection)."""
+
+    def __init__(self, H):
+        self.H = H
+        self.root = H.W.dir / 'repo'
+        self.root.mkdir()
+        self.fs = fsseam.FS()
+        self.next_plan = None
+        H.W.make_backend_override = self.make
+        H.W.after_run = self.after
+
+    def make(self):
+        self.fs = self.next_plan or fsseam.FS(order_rng=None)
+        self.next_plan = None
+        return fsseam.make_local(self.root, self.fs)
+
+    def after(self, r):
+        CTX.fs = None
+        self.last_fs = self.fs
+        self.H.W.state.objects = self.read()
+
+    def read(self):
+        out = {}
+        for dp, dn, fn in os.walk(self.root):
+            for f in fn:
+                p = os.path.join(dp, f)
+                rel = os.path.relpath(p, self.root)
+                if not rel.endswith('.tmp'):
+                    with open(p, 'rb') as fh:
+                        out[rel] = fh.read()
+        return out
+
+    def save(self):
+        out = {}
+        for dp, dn, fn in os.walk(self.root):
+            for f in fn:
+                p = os.path.join(dp, f)
+                with open(p, 'rb') as fh:
+                    out[os.path.relpath(p, self.root)] = fh.read()
+        return out
+
+    def load(self, content):
+        import shutil as _sh
+        _sh.rmtree(self.root, ignore_errors=True)
+        self.root.mkdir()
+        for rel, data in content.items():
+            p = self.root / rel
+            p.parent.mkdir(parents=True, exist_ok=True)
+            p.write_bytes(data)
+        self.H.W.state.objects = self.read()
+
+
+class Fork(history.Fork):
+    def __init__(self, H, local=None):
+        super().__init__(H)
+        self.local = local
+        self.dir0 = local.save() if local is not None else None
+
+    def restore(self):
+        super().restore()
+        if self.local is not None:
+            self.local.load(self.dir0)
 
 
 def run_victim(H, victim, profile):
@@ -92,7 +161,7 @@ def evaluate(H, case, victim, r, info, fault, before_objs):
             return
         if r.exc is None and not r.crashed:
             b = r.backend
-            if b is not None and b.failed_call_desc is not None:
+            if b is not None and getattr(b, 'failed_call_desc', None) is not None:
                 H.flag('failure-swallowed', f'{victim["op"]}: backend call {b.failed_call_desc} failed for good ({fault[2]}) but the command reported success', **sig)
                 return
     new = listed - set(base)
@@ -173,6 +242,7 @@ def run_case(case):
     victim = case['victim']
     pre = {k: v for k, v in case.items() if k not in ('victim', 'follow', 'sample_seed')}
     H = history.History(pre, 'c03', ('store',))
+    local = LocalUniverse(H) if case.get('backend') == 'local' else None
     evaluations = 0
     states = set()
     samples = []
@@ -184,12 +254,14 @@ def run_case(case):
             return H.result()
         for i, op in enumerate(pre['ops']):
             H.opi = i
+            if local is not None and 'crash_at' in op:
+                local.next_plan = fsseam.FS(crash_at=4 + 5 * op['crash_at'], torn_rng=substream(case['sample_seed'], f'torn-pre{i}'))
             H.step(op)
             if H.viol:
                 for v in H.viol:
                     v['cls'] = 'prefix-' + v['cls']
                 return H.result()
-        fork = Fork(H)
+        fork = Fork(H, local)
         # ---- baseline: the victim completes; count its commit points and calls
         r, info = run_victim(H, victim, H.W.profile())
         if r is None:
@@ -200,8 +272,12 @@ def run_case(case):
         if not r.ok:
             H.flag('command-failed', f'fault-free {victim["op"]} failed: {r.outcome()} {r.exc or r.hang!r}', victim=victim['op'])
             return H.result()
-        M, C = r.backend.commits, r.backend.calls
-        ops_of_call = None
+        if local is not None:
+            M = C = local.last_fs.n
+            H.probe('local_backend')
+        else:
+            M, C = r.backend.commits, r.backend.calls
+        base_syscalls = list(local.last_fs.log) if local is not None else []
         H.probe('victim_' + victim['op'])
         rng = substream(case['sample_seed'], 'points')
         crash_points = list(range(M))
@@ -218,7 +294,16 @@ def run_case(case):
         for fault in plan:
             fork.restore()
             before = dict(H.W.state.objects)
-            if fault[0] == 'crash':
+            if local is not None:
+                prof = None
+                if fault[0] == 'crash':
+                    local.next_plan = fsseam.FS(crash_at=fault[1], torn_rng=substream(case['sample_seed'], f'torn{fault[1]}'))
+                else:
+                    local.next_plan = fsseam.FS(faults={})
+                    kind = base_syscalls[fault[1]][0] if fault[1] < len(base_syscalls) else 'write'
+                    skip = sum(1 for k, _ in base_syscalls[:fault[1]] if k == kind)
+                    local.next_plan.fail_next(kind, 'EIO' if fault[2] == 'before' else 'ENOSPC', count=10**9, skip=skip)
+            elif fault[0] == 'crash':
                 prof = H.W.profile(crash_at=fault[1], crash_commit_inflight=substream(case['sample_seed'], f'inflight{fault[1]}'))
             else:
                 prof = H.W.profile(fail_call=fault[1], fail_mode=fault[2])
@@ -230,8 +315,16 @@ def run_case(case):
                     H.flag('command-failed', f'{victim["op"]} failed without a fault: {r.outcome()} {r.exc!r}', victim=victim['op'])
                     break
                 continue
-            for k, v in (r.backend.fired if r.backend is not None else {}).items():
+            fired = local.last_fs.fired if local is not None else (r.backend.fired if r.backend is not None else {})
+            for k, v in fired.items():
+                k = k if local is None else ('crash' if k == 'crash' else 'torn_write' if k == 'torn_write' else 'fs_errno')
                 H.probes[k] = H.probes.get(k, 0) + v
+            if local is not None:
+                # nothing incomplete may be observable under a name the adapter would show
+                partial = fsseam.partial_visible(local.last_fs)
+                if partial:
+                    H.flag('partial-object-visible', f'after {fault}: {[os.path.relpath(p, local.root) for p in partial][:3]} hold(s) incomplete content '
+                           f'but is visible to listing / exists / download', victim=victim['op'], fault=fault[0])
             evaluate(H, case, victim, r, info, fault, before)
             states.add(hash(tuple(sorted(H.W.state.objects))))
             if len(samples) < 2:
